@@ -448,6 +448,15 @@ func (h *harness) startup(fileYAML map[string]any, rawYAML string, env map[strin
 			}
 		}
 	}
+	if path != "" && explicitPath == "" && form >= 0 && h.nfile%7 == 3 {
+		// the option names the file; an environment variable BHS_CONFIG_FILE pointing elsewhere does not change that
+		dp := filepath.Join(h.dir, fmt.Sprintf("decoy-env-%d.yaml", h.nfile))
+		if b, err := yaml.Marshal(decoy(fileYAML)); err == nil && os.WriteFile(dp, b, 0o600) == nil {
+			defer os.Remove(dp)
+			_ = os.Setenv("BHS_CONFIG_FILE", dp)
+			h.r.Count("start_ups_with_the_option_and_BHS_CONFIG_FILE_pointing_elsewhere", 1)
+		}
+	}
 	oldArgs, oldStdout := os.Args, os.Stdout
 	defer func() { os.Args, os.Stdout = oldArgs, oldStdout }()
 	os.Stdout = h.devnull // the repo's default logger writes to os.Stdout
